@@ -121,11 +121,21 @@ func getConstraints(schema *openapi3.Schema) []ast.TypeConstraint {
 }
 
 func getArgs(v *float64, t string) []any {
-	args := []any{*v}
-	if t == openapi3.TypeInteger {
-		args = []any{int64(*v)}
+	if t != openapi3.TypeInteger {
+		return []any{*v}
 	}
-	return args
+
+	// kin-openapi reads every number as a float64. What is beyond the int64 range
+	// is brought back to its closest end: the conversion of such a float is not
+	// defined (`maximum: 9223372036854775807` is read as 2^63).
+	switch {
+	case *v >= math.MaxInt64:
+		return []any{int64(math.MaxInt64)}
+	case *v <= math.MinInt64:
+		return []any{int64(math.MinInt64)}
+	}
+
+	return []any{int64(*v)}
 }
 
 func isRef(ref string) bool {
